@@ -43,6 +43,9 @@ def build_scripts(ctx, scale):
             for n in (0, 1, 2, 4):
                 ks = [ctx.rng.choice(sc) for _ in range(n)]; ps = [pool.pick(ctx.rng) for _ in range(n)]
                 lines.append('el.msm_vartime %s %s' % (';'.join('%x' % k for k in ks) if n else '-', ';'.join(E(p) for p in ps) if n else '-'))
+            for ps in pool.batches(ctx.rng):
+                ks = [ctx.rng.choice(sc) for _ in ps]
+                lines.append('el.msm_vartime %s %s' % (';'.join('%x' % k for k in ks), ';'.join(E(p) for p in ps)))
         scripts[b] = lines
     return scripts
 
